@@ -7,5 +7,5 @@ unset GOTOOLCHAIN GOSUMDB || true
 mkdir -p evidence replays harness/bin
 (cd harness && cp /repo/go.sum . && go build -o bin/facts ./cmd/facts && ./bin/facts /repo "$(pwd)/../lean/PikoModel/Generated/Facts.lean")
 (cd lean && lake build PikoModel Proofs Props driver)
-(cd harness && ./mkoverlay.py /repo && for d in cmd/h-*; do go build -tags verif -overlay overlay.json -o bin/$(basename $d) ./$d; done)
+(cd harness && go build -o bin/mkshims ./cmd/mkshims && for d in cmd/h-*; do e=$(basename $d); e=${e#h-}; ./bin/mkshims -repo /repo -engine $e -out overlay-$e.json && go build -tags verif -overlay overlay-$e.json -o bin/h-$e ./$d; done)
 echo setup ok
